@@ -110,6 +110,7 @@ type runner struct {
 	stopCall bool
 	closed   bool
 	annHeld  int // announce_peer queries written to nodes that never answer them
+	mainGoid int64
 	started  int32
 	done     int32
 	stopFlag int32
@@ -230,6 +231,11 @@ func (r *runner) resendDelay() time.Duration {
 // a C03 matter): Stop without a caller while queries are in flight or before any was started.
 func (r *runner) sink(op *traversal.Operation, ev traversal.VerifEvent) {
 	if r.op.Load() == nil {
+		// the traversal of this run is the one whose AddNodes runs in the driver's own goroutine, inside
+		// AnnounceTraversal (late events of the previous run's traversal come from other goroutines)
+		if atomic.LoadInt64(&r.mainGoid) != goid() {
+			return
+		}
 		r.op.Store(op)
 	}
 	if r.op.Load() != op {
@@ -321,6 +327,10 @@ type hangErr struct{ rec hangRec }
 func (h *hangErr) Error() string { return h.rec.What }
 
 func (r *runner) hang(class, what string, wait time.Duration) error {
+	if os.Getenv("ANN_DEBUG") != "" {
+		gp, an, auto, undeliv, gatedNow := r.counts()
+		fmt.Fprintln(os.Stderr, "HANG", class, "gp", gp, "an", an, "auto", auto, "undeliv", undeliv, "gated", gatedNow, "paused", r.paused, "\n"+strings.Join(r.lines, "\n"))
+	}
 	var snap any
 	if op := r.op.Load(); op != nil {
 		snap = op.VerifSnapshot()
@@ -442,7 +452,6 @@ func (r *runner) quiesce(a *dht.Announce) error {
 			}
 		}
 		if time.Now().After(deadline) {
-			if os.Getenv("ANN_DEBUG") != "" { gp, an, auto, undeliv, gatedNow := r.counts(); fmt.Fprintln(os.Stderr, "DBG", gp, an, auto, undeliv, gatedNow, r.paused, strings.Join(r.lines, "\n")) }
 			return r.hang("quiesce", "the node neither finished nor reached a state in which it waits for the network, the consumer or the caller", time.Since(start))
 		}
 		time.Sleep(150 * time.Microsecond)
@@ -581,6 +590,7 @@ func (r *runner) run() (lines []string, err error) {
 	r.ev(sim.M{"e": "Start", "k": 8, "alpha": 3, "target": r.nw.target, "announce": r.opt.announce, "port": r.opt.port,
 		"implied": r.opt.implied, "scrape": r.opt.scrape, "api": r.opt.api, "addrs": addrs, "short": short, "annhold": annhold,
 		"scn": string(scj)})
+	atomic.StoreInt64(&r.mainGoid, goid())
 	traversal.VerifSink = r.sink
 	defer func() { traversal.VerifSink = nil }()
 	ih := r.nw.emb.Conc(r.nw.target)
@@ -624,6 +634,7 @@ func (r *runner) run() (lines []string, err error) {
 			break
 		}
 		// immediate replies (integer tokens) are not choices
+		autos := 0
 		for {
 			r.mu.Lock()
 			ai := -1
@@ -639,6 +650,11 @@ func (r *runner) run() (lines []string, err error) {
 			if err = r.release(ai); err != nil {
 				return nil, err
 			}
+			autos++
+		}
+		if autos > 0 {
+			step-- // not a quiescent point of its own: settle again
+			continue
 		}
 		acted := false
 		if step == sc.PauseAt && !r.paused {
@@ -720,7 +736,8 @@ func (r *runner) run() (lines []string, err error) {
 		case snap.Stopped && held > 0 && !r.closed:
 			r.stop(a, 1) // only Close ends an announce_peer nobody answers
 		default:
-			if !waitDone(a.Finished(), r.hangWait) {
+			// nothing parked yet: the node may still be about to write (announce_peer goroutines starting)
+			if !r.waitFinishedOrWork(a) {
 				return nil, r.hang("finish", "Finished() never fires although nothing is in flight and the consumer reads", r.hangWait)
 			}
 		}
@@ -746,6 +763,26 @@ func (r *runner) run() (lines []string, err error) {
 }
 
 var errAnomaly = fmt.Errorf("stale stalled offer (DESIGN O1); run set aside")
+
+// waits until Finished() fires or the node has written something the driver must answer
+func (r *runner) waitFinishedOrWork(a *dht.Announce) bool {
+	deadline := time.Now().Add(r.hangWait)
+	for {
+		if isDone(a.Finished()) {
+			return true
+		}
+		r.mu.Lock()
+		work := len(r.park) > 0 || (r.annHeld > 0 && !r.closed) || (r.gated && !r.gateOpen)
+		r.mu.Unlock()
+		if work {
+			return true
+		}
+		if time.Now().After(deadline) {
+			return false
+		}
+		time.Sleep(200 * time.Microsecond)
+	}
+}
 
 func waitDone(c <-chan struct{}, d time.Duration) bool {
 	select {
